@@ -459,6 +459,92 @@ func s10() scenario {
 	}}
 }
 
+// ---- S11: SM9 encryption user key shared by decryptors
+
+var s11Once sync.Once
+var s11CT, s11Wrapped, s11ASN1 []byte
+
+func s11() scenario {
+	return scenario{name: "S11-sm9-encrypt-user-key", setup: func() *inst {
+		s5().setup() // makes sure s5MasterDER exists
+		m, err := sm9.UnmarshalEncryptMasterPrivateKeyASN1(s5MasterDER)
+		if err != nil {
+			panic(err)
+		}
+		s11Once.Do(func() {
+			pub := m.PublicKey()
+			s11CT, _ = sm9.Encrypt(&engine.DetReader{Lane: 80}, pub, s4UID, 3, []byte("for the user key"), sm9.SM4CBCEncrypterOpts)
+			_, s11Wrapped, _ = pub.WrapKey(&engine.DetReader{Lane: 81}, s4UID, 3, 24)
+			s11ASN1, _ = sm9.EncryptASN1(&engine.DetReader{Lane: 82}, pub, s4UID, 3, []byte("asn1 payload"), nil)
+		})
+		u, err := m.GenerateUserKey(s4UID, 3)
+		if err != nil {
+			panic(err)
+		}
+		// a user key rebuilt from its ASN.1 form (carries the master public key): fresh objects, fresh lazy caches
+		der, err := u.MarshalASN1()
+		if err != nil {
+			panic(err)
+		}
+		u2, err := sm9.UnmarshalEncryptPrivateKeyASN1(der)
+		if err != nil {
+			panic(err)
+		}
+		in := &inst{outs: make([]string, 3)}
+		in.threads = []func(){
+			func() { in.outs[0] = hx(sm9.Decrypt(u2, s4UID, s11CT, sm9.SM4CBCEncrypterOpts)) },
+			func() { in.outs[1] = hx(sm9.UnwrapKey(u2, s4UID, s11Wrapped, 24)) },
+			func() { in.outs[2] = hx(sm9.DecryptASN1(u2, s4UID, s11ASN1)) },
+		}
+		return in
+	}}
+}
+
+// ---- S12: one SM4 block shared by CCM users and by mode constructors of every kind
+
+func s12() scenario {
+	key := fixedScalar(14)[:16]
+	nonce := fixedScalar(15)[:13]
+	pt := engine.Pattern(3, 160)
+	return scenario{name: "S12-sm4-shared-block-modes", setup: func() *inst {
+		blk, err := sm4.NewCipher(key)
+		if err != nil {
+			panic(err)
+		}
+		ccm, err := gcipher.NewCCMWithNonceAndTagSize(blk, 13, 8)
+		if err != nil {
+			panic(err)
+		}
+		gcm16, err := cipher.NewGCMWithNonceSize(blk, 16)
+		if err != nil {
+			panic(err)
+		}
+		sealed := ccm.Seal(nil, nonce, pt[:50], nil)
+		in := &inst{outs: make([]string, 3)}
+		in.threads = []func(){
+			func() {
+				o, err := ccm.Open(nil, nonce, sealed, nil)
+				in.outs[0] = hx(o, err) + hex.EncodeToString(ccm.Seal(nil, nonce, pt[:17], []byte("a")))
+			},
+			func() {
+				in.outs[1] = hex.EncodeToString(gcm16.Seal(nil, fixedScalar(16)[:16], pt[:130], []byte("aad")))
+			},
+			func() {
+				d1 := make([]byte, 160)
+				gcipher.NewECBEncrypter(blk).CryptBlocks(d1, pt)
+				d2 := make([]byte, 160)
+				gcipher.NewBCEncrypter(blk, fixedScalar(17)[:16]).CryptBlocks(d2, pt)
+				d3 := make([]byte, 160)
+				cipher.NewCFBEncrypter(blk, fixedScalar(18)[:16]).XORKeyStream(d3, pt)
+				d4 := make([]byte, 160)
+				cipher.NewCBCDecrypter(blk, fixedScalar(19)[:16]).CryptBlocks(d4, pt)
+				in.outs[2] = hex.EncodeToString(d1) + hex.EncodeToString(d2) + hex.EncodeToString(d3) + hex.EncodeToString(d4)
+			},
+		}
+		return in
+	}}
+}
+
 func allScenarios() []scenario {
-	return []scenario{s1(), s2(), s3(), s4(), s5(), s6a(), s6b(), s7(), s8(), s9(), s10()}
+	return []scenario{s1(), s2(), s3(), s4(), s5(), s6a(), s6b(), s7(), s8(), s9(), s10(), s11(), s12()}
 }
